@@ -7,6 +7,7 @@ import (
 	"sort"
 	"strings"
 	"testing"
+	"time"
 
 	"github.com/cosi-project/runtime/pkg/controller"
 	"github.com/cosi-project/runtime/pkg/controller/runtime/zzverif/simrt"
@@ -334,6 +335,18 @@ func (c17) Run(t *testing.T, cs Case, trace bool) *Outcome {
 				}
 			}
 		}
+		// background churn: events keep flowing while controllers are registered and inputs are updated
+		s.Spawn("churn", func() {
+			for i := 0; i < 8*len(c.Steps); i++ {
+				simrt.Sleep(150 * time.Millisecond)
+				typ := []string{TypeA, TypeB, TypeC}[i%3]
+				id := []string{"r0", "r1"}[(i/3)%2]
+				_, _ = w.St.UpdateWithConflicts(ctx, resource.NewMetadata("ns1", typ, id, resource.VersionUndefined), func(r resource.Resource) error {
+					SpecOf(r).Val = fmt.Sprintf("churn%d", i)
+					return nil
+				})
+			}
+		})
 		model := newRegModel()
 		probes := map[string]*Probe{}
 		started := false
@@ -396,7 +409,14 @@ func (c17) Run(t *testing.T, cs Case, trace bool) *Outcome {
 					notes = append(notes, fmt.Sprintf("update-inputs %s skipped (not running)", step.Target))
 					continue
 				}
-				err := p.rt.UpdateInputs(toInputs(step.Inputs))
+				// the controller applies the update itself at its next reconcile, concurrently with event delivery
+				p.pendingInputs, p.pendingSet, p.pendingDone = step.Inputs, true, false
+				p.rt.QueueReconcile()
+				if r := s.RunUntil(800000, func() bool { return p.pendingDone }); r != simrt.CondMet {
+					out.HarnessErr = fmt.Sprintf("C17 update-inputs was not applied: %v live=%v", r, s.Live())
+					return
+				}
+				err := p.pendingErr
 				why := model.updateInputs(step.Target, step.Inputs)
 				notes = append(notes, fmt.Sprintf("update-inputs %s %v -> impl: %v, model: %q", step.Target, step.Inputs, err, why))
 				if (err == nil) != (why == "") {
@@ -404,15 +424,23 @@ func (c17) Run(t *testing.T, cs Case, trace bool) *Outcome {
 					return
 				}
 				if err == nil {
-					p.curInputs = append([]InputSpec{}, step.Inputs...)
 					out.probe("accepted")
 				} else {
 					out.probe("rejected")
 				}
 			}
-			if !settle(what) || !checkGraph(what) {
+			// let the system run for a virtual second (the background churn keeps events flowing) and compare the graph
+			s.RunFor(time.Second, 400000)
+			if ps := s.Panics(); len(ps) > 0 {
+				out.violate("C17/delivery-crash", "panic:"+firstLine(ps[0].Value), "after %s a runtime task panicked (the process would have crashed): task %s: %s\n%s", what, ps[0].Task, ps[0].Value, ps[0].Stack)
 				return
 			}
+			if !checkGraph(what) {
+				return
+			}
+		}
+		if !settle("the registration history") {
+			return
 		}
 		if !started {
 			w.Start(s, ctx)
